@@ -7,12 +7,15 @@ import (
 	"encoding/hex"
 	"encoding/json"
 	"net/http"
+	"net/http/httptest"
 	"net/url"
 	"os"
 	"strconv"
 	"strings"
 	"testing"
 	"time"
+
+	"github.com/Cloud-Foundations/keymaster/lib/instrumentedwriter"
 )
 
 func verifReplayInputs(t *testing.T) map[string]string {
@@ -124,6 +127,40 @@ func TestVerifReplayExpiredStorageRecord(t *testing.T) {
 	t.Logf("record signed by this server, exp=%d (now=%d) -> err=%v subject=%q", exp, time.Now().Unix(), err, rec.Subject)
 	if err == nil {
 		t.Logf("REPLAY-CONFIRMED: an expired signed storage record is accepted")
+	} else {
+		t.Logf("REPLAY-NOT-REPRODUCED")
+	}
+}
+
+// C06: a keymaster-issued *user* certificate presented to an endpoint that only takes IP-restricted
+// certificates (mask = AuthTypeIPCertificate).
+func TestVerifReplayCheckAuthKind(t *testing.T) {
+	in := verifReplayInputs(t)
+	mask, _ := strconv.Atoi(in["required"])
+	if mask == 0 {
+		mask = AuthTypeIPCertificate
+	}
+	state, tmpdir, err := testCreateRuntimeStateWithBothCAs(t)
+	if err != nil {
+		t.Fatal(err)
+	}
+	defer os.RemoveAll(tmpdir)
+	recorder := httptest.NewRecorder()
+	w := &instrumentedwriter.LoggingWriter{ResponseWriter: recorder}
+	req := httptest.NewRequest("GET", refreshRoleRequestingCertPath, nil)
+	req.TLS, err = testMakeConnectionState("testdata/bob.pem", "testdata/KeymasterCA.pem")
+	if err != nil {
+		t.Fatal(err)
+	}
+	ai, err := state.checkAuth(w, req, mask)
+	if err != nil || ai == nil {
+		t.Logf("required=%#x bob's keymaster user certificate -> refused (%v)", mask, err)
+		t.Logf("REPLAY-NOT-REPRODUCED")
+		return
+	}
+	t.Logf("required=%#x bob's keymaster user certificate -> admitted as %q with level %#x", mask, ai.Username, ai.AuthType)
+	if ai.AuthType&mask == 0 {
+		t.Logf("REPLAY-CONFIRMED: admitted with a credential kind the endpoint does not accept")
 	} else {
 		t.Logf("REPLAY-NOT-REPRODUCED")
 	}
